@@ -2,6 +2,7 @@ package performance
 
 import (
 	"fmt"
+	"io"
 	"math"
 
 	"github.com/sboehler/knut/lib/amounts"
@@ -230,7 +231,10 @@ func sortedCommodities(m pcv) []*model.Commodity {
 	return dict.SortedKeys(m, commodity.Compare)
 }
 
-func Perf(j *journal.Builder, part date.Partition) *journal.Processor {
+// Perf writes one line per period to w. The caller decides when to show the
+// output: the processor runs concurrently with the stages that may still
+// reject the journal.
+func Perf(j *journal.Builder, part date.Partition, w io.Writer) *journal.Processor {
 	ds := set.FromSlice(j.Days(part.EndDates()))
 	running := 1.0
 	return &journal.Processor{
@@ -240,7 +244,7 @@ func Perf(j *journal.Builder, part date.Partition) *journal.Processor {
 			}
 			running *= Performance(d.Performance)
 			if ds.Has(d) {
-				fmt.Printf("%v: %0.1f%%\n", d.Date, 100*(running-1))
+				fmt.Fprintf(w, "%v: %0.1f%%\n", d.Date, 100*(running-1))
 				running = 1.0
 			}
 			return nil
